@@ -106,6 +106,12 @@ def apply_to_params(ip, c, params):
             for n in [a.arg for a in af.node.args.args]:
                 if n == 'callee':
                     vals.append(Old(dict(params)))
+                elif n == 'old':
+                    vals.append(ctx.ghost.get('old'))
+                elif n.startswith('G') and n[1:] in (ctx.ghost.get('globals') or {}):
+                    vals.append(ctx.ghost['globals'][n[1:]])       # module global, current state
+                elif n.startswith('arg_') and n[4:] in (ctx.ghost.get('params') or {}):
+                    vals.append(ctx.ghost['params'][n[4:]])        # the object passed as parameter, current state
                 else:
                     found, v = fr['env'].lookup(n)
                     if not found:
